@@ -55,5 +55,21 @@ PROPS["C04"] = dict(
                  ],
 )
 
+PROPS["C06"] = dict(
+    pkg="c06", race=True, level="exploration", prepare="exec_projects",
+    projects_quick=[("core", ["v0", "w1", "w2"])],
+    projects_thorough=[("core", ["v0", "w1", "w2", "v1", "w8"])],
+    quick=dict(shards=8, timeout=900), thorough=dict(shards=16, timeout=3000),
+    claim="metamorphic testing under the Go race detector: every generated (operation, plan) pair is executed under 8 harness-owned "
+          "schedules (none, yields, delays, reversed sibling completion through gates, mixed) on servers generated with "
+          "worker_limit 0/1/2; data bytes and error multiset must be identical across schedules and equal to the reference "
+          "executor; mutation root fields must be strictly serial in the invocation log; any race report fails the check",
+    note="schedules are sampled and steered, not enumerated; the race detector only sees executed paths",
+    technique="metamorphic property-based testing (rapid) across induced schedules + Go race detector as additional oracle",
+    rule="evaluation = one execution under one schedule; non-trivial = the schedules produced >=2 distinct resolver completion orders "
+         "and (>=2 resolvers overlapped in time or a composite list of >=2 elements was resolved); distinct by (query, plan, schedule seed)",
+    assumptions=["resolver timing is owned through yields, sleeps <=500us and bounded gates (30ms)", "reference executor is correct"],
+)
+
 # properties deliberately not claimed (reason); anything else missing from PROPS is "not built yet"
 NOT_CLAIMED = {}
